@@ -197,8 +197,14 @@ func (q *CountingQueue) Done(item interface{}) {
 // InFlight is the number of keys a worker is processing right now.
 func (q *CountingQueue) InFlight() int64 { return q.inflight.Load() }
 
+// ResetLight is Reset without building a new controller object (inner loops that re-run the same
+// scenario thousands of times; every controller built leaks its event broadcaster's goroutines).
+func (w *World) ResetLight() { w.reset(false) }
+
 // Reset empties API, caches, queue and pending events for the next scenario.
-func (w *World) Reset() {
+func (w *World) Reset() { w.reset(true) }
+
+func (w *World) reset(rebuild bool) {
 	w.Srv.Reset()
 	w.Srv.TrimLog()
 	w.pmu.Lock()
@@ -210,8 +216,14 @@ func (w *World) Reset() {
 			idx.Delete(o)
 		}
 	}
-	w.Q = NewVQueue()
-	w.Ctl.VerifSetQueue(w.Q)
+	// a fresh controller object per scenario: anything the controller might remember between
+	// reconciles must not leak from one scenario into the next (witnesses stay reproducible)
+	if rebuild {
+		w.build()
+	} else {
+		w.Q = NewVQueue()
+		w.Ctl.VerifSetQueue(w.Q)
+	}
 	w.recN = 0
 	w.CatchUp = false
 	w.CatchUpOneByOne = false
